@@ -28,6 +28,8 @@
 //       nested-attribute-exponential : attributes nested more than C16_ATTR_NEST_CAP deep in attribute arguments
 //       macro-mutual-recursion-hang  : a function-like macro on a cycle of the macro reference graph
 //       typedef-struct-alias-uaf     : the text contains "typedef" and ("struct" or "enum")
+//       ifdef-without-name           : "...def" followed only by blanks up to the end of its line (#ifdef / #ifndef)
+//       statement-attribute-on-bare-type : contains @barrier or @atomic and ends with an identifier character
 #include <occa.hpp>
 #include <occa/internal/io/output.hpp>
 #include <occa/internal/utils/env.hpp>
@@ -97,8 +99,9 @@ namespace occa {
 // ---- statistics (fixed-size storage only: an allocation that outlives one input makes libFuzzer run leak checks) ----
 enum { O_ACCEPT = 0, O_REJECT, O_THROW, O_COUNT };
 static const char *O_NAMES[O_COUNT] = {"accepted", "rejected(errors reported)", "rejected(occa::exception)"};
-enum { K_ATTRNEST = 0, K_MACROCYCLE, K_TYPEDEF, K_COUNT };
-static const char *K_IDS[K_COUNT] = {"nested-attribute-exponential", "macro-mutual-recursion-hang", "typedef-struct-alias-uaf"};
+enum { K_ATTRNEST = 0, K_MACROCYCLE, K_TYPEDEF, K_IFDEF, K_ATTRTYPE, K_COUNT };
+static const char *K_IDS[K_COUNT] = {"nested-attribute-exponential", "macro-mutual-recursion-hang", "typedef-struct-alias-uaf",
+                                     "ifdef-without-name", "statement-attribute-on-bare-type"};
 #ifndef C16_ATTR_NEST_CAP
 #define C16_ATTR_NEST_CAP 4
 #endif
@@ -450,6 +453,21 @@ extern "C" int LLVMFuzzerTestOneInput(const uint8_t *data, size_t size) {
   if (g_knownOn[K_TYPEDEF] && memmem(text, n, "typedef", 7) && (memmem(text, n, "struct", 6) || memmem(text, n, "enum", 4))) {
     ++g_known[K_TYPEDEF];
     return 0;
+  }
+  if (g_knownOn[K_IFDEF]) {
+    // #ifdef / #ifndef with nothing but blanks up to the end of the line
+    bool hit = false;
+    for (const char *q = (const char*) text; !hit && (q = (const char*) memmem(q, n - (size_t) (q - (const char*) text), "def", 3)); q += 3) {
+      const char *e = q + 3, *end = (const char*) text + n;
+      while (e < end && (*e == ' ' || *e == '\t' || *e == '\r')) ++e;
+      if (e < end && *e == '\n') hit = true;
+    }
+    if (hit) { ++g_known[K_IFDEF]; return 0; }
+  }
+  if (g_knownOn[K_ATTRTYPE] && n && (memmem(text, n, "@barrier", 8) || memmem(text, n, "@atomic", 7))) {
+    size_t e = n;
+    while (e > 0 && (text[e - 1] == ' ' || text[e - 1] == '\t' || text[e - 1] == '\n' || text[e - 1] == '\r')) --e;
+    if (e > 0 && identChar((char) text[e - 1])) { ++g_known[K_ATTRTYPE]; return 0; }
   }
   if (g_knownOn[K_ATTRNEST] && attributeNesting((const char*) text, n) > C16_ATTR_NEST_CAP) { ++g_known[K_ATTRNEST]; return 0; }
 
